@@ -1,6 +1,7 @@
 INIT Init
 NEXT Next
 CONSTANTS MaxDepth = 1
+ ExtraLeaves <- NoExtra
  LeafMode = "plain"
  WithPairs = FALSE
 INVARIANT Emit
